@@ -337,6 +337,7 @@ func (s *serverSocket) onConnect() error {
 
 	s.sendControlPacket(parser.PacketTypeConnect, &c)
 	s.connected = true
+	vhook.Event("ssocket.connected", "s", s, "sid", s.ID(), "nsp", s.nsp.Name())
 	return nil
 }
 
@@ -353,8 +354,10 @@ func (s *serverSocket) onClose(reason Reason) {
 	s.closeOnce.Do(func() {
 		s.debug.Log("Going to close the socket. It is not already closed. Reason", reason)
 		if !s.Connected() {
+			vhook.Event("ssocket.onclose.early", "s", s, "sid", s.ID(), "reason", string(reason))
 			return
 		}
+		vhook.Event("ssocket.onclose", "s", s, "sid", s.ID(), "nsp", s.nsp.Name(), "reason", string(reason))
 
 		wg := utils.NewTimeoutWaiter(0)
 		s.disconnectingHandlers.forEach(func(handler *ServerSocketDisconnectingFunc) {
@@ -389,6 +392,7 @@ func (s *serverSocket) onClose(reason Reason) {
 
 		s.connectedMu.Lock()
 		s.connected = false
+		vhook.Event("ssocket.disconnected", "s", s, "sid", s.ID(), "reason", string(reason))
 		s.connectedMu.Unlock()
 
 		s.disconnectHandlers.forEach(func(handler *ServerSocketDisconnectFunc) { (*handler)(reason) }, true)
